@@ -95,9 +95,40 @@ void scen_ets(hx::Desc& d, const char* name) {
             sim::upoint();
         }
     };
+    // epochs: the same threads use the container again after clear() (issued at quiescence: clear is not a concurrent
+    // operation) by a thread that has no element of its own (the main thread) or by one that has
+    int epochs = (int)sim::draw_range(1, 3, "epochs");
+    bool clear_by_owner = sim::draw_bool("clear_by_owner");
+    if (epochs > 1) { d.add(hx::fmt("epochs=%d clear() by a thread %s an element", epochs, clear_by_owner ? "with" : "without")); d.publish(); }
+    std::vector<sim::event> go((size_t)epochs), all_done((size_t)epochs);
+    int arrived = 0;
     std::vector<std::function<void()>> fns;
-    for (int t = 0; t < nthreads; ++t) fns.push_back(worker);
-    hx::run_fibers(fns);
+    for (int t = 0; t < nthreads; ++t) fns.push_back([&, t] {
+        for (int e = 0; e < epochs; ++e) {
+            go[(size_t)e].wait();
+            worker();
+            bool last = ++arrived == nthreads;
+            if (last && clear_by_owner && e + 1 < epochs) ets->clear();      // this thread has an element (and a cached pointer to it)
+            if (last) { arrived = 0; all_done[(size_t)e].signal(); }
+        }
+    });
+    std::vector<int> ids;
+    for (auto& f : fns) ids.push_back(sim::spawn(f, "user"));
+    for (int e = 0; e < epochs; ++e) {
+        go[(size_t)e].signal();
+        all_done[(size_t)e].wait();
+        if (e + 1 < epochs) {
+            if (!clear_by_owner) {
+                SIM_CHECK(ets->size() == (size_t)nthreads, "oracle:ets-count", "epoch %d: %zu elements for %d threads", e, ets->size(), nthreads);
+                ets->clear();                                                 // the main thread never called local(): no element, no cached pointer
+            }
+            SIM_CHECK(ets->size() == 0 && ets->empty(), "oracle:ets-count", "%zu elements after clear()", ets->size());
+            for (auto& kv : init_by_fiber) SIM_CHECK(kv.second == 1, "oracle:ets-init", "epoch %d: the initialiser ran %d times for fiber %d", e, kv.second, kv.first);
+            addr.clear(); init_by_fiber.clear(); inits = 0;                   // every thread must get a fresh element from a fresh initialiser call
+            sim::probe("ets:clear-between-epochs");
+        }
+    }
+    for (int id : ids) sim::join(id);
     // threads have exited; new threads arrive under new ids and get fresh elements
     fns.clear();
     for (int t = 0; t < late; ++t) fns.push_back(worker);
